@@ -183,4 +183,64 @@ example : (asyncsTo 1024 3 { q := [], pending := 0 } [500, 500, 24]).2 = [] ∧
 example : (asyncsTo 1024 3 { q := [], pending := 0 } [500, 500, 25]).2 = [(3, 1025)] := by decide
 example : (asyncMain 100 { q := [(1, 60), (2, 30)], pending := 40 } 5 50).2 = [(1, 60)] := by decide
 
+/-! ### flush points: any buffered destination, whole -/
+
+theorem removeHop_total (hop : Nat) (q : Q) (x : Nat) (q' : Q) (h : removeHop hop q = some (x, q')) :
+    total q = x + total q' := by
+  induction q generalizing x q' with
+  | nil => simp [removeHop] at h
+  | cons a rest ih =>
+    obtain ⟨ha, xa⟩ := a
+    simp only [removeHop] at h
+    split at h
+    · simp only [Option.some.injEq, Prod.mk.injEq] at h
+      obtain ⟨rfl, rfl⟩ := h
+      simp [total]
+    · cases hr : removeHop hop rest with
+      | none => simp [hr] at h
+      | some p =>
+        obtain ⟨b, q2⟩ := p
+        simp only [hr, Option.some.injEq, Prod.mk.injEq] at h
+        obtain ⟨rfl, rfl⟩ := h
+        have := ih b q2 hr
+        simp only [total, List.map_cons, List.sum_cons] at this ⊢
+        omega
+
+/-- **a flush point conserves bytes and never raises the unsent total**: the bytes leave `unsent` and enter `pending`,
+one physical send carries the whole buffer of that destination -/
+theorem C07_flushHop_conserves (s : St) (hop : Nat) (s' : St) (sent : Q) (h : flushHop s hop = some (s', sent)) :
+    total s.q = total sent + total s'.q ∧ s'.pending = s.pending + total sent ∧ sent.length = 1 ∧
+    total s'.q ≤ total s.q := by
+  unfold flushHop at h
+  cases hr : removeHop hop s.q with
+  | none => simp [hr] at h
+  | some p =>
+    obtain ⟨x, q'⟩ := p
+    simp only [hr, Option.some.injEq, Prod.mk.injEq] at h
+    obtain ⟨rfl, rfl⟩ := h
+    have := removeHop_total hop s.q x q' hr
+    simp [total] at this ⊢
+    omega
+
+/-- on the destination at the front of the queue a flush point is `flushFront` (what comm.ipp does today) -/
+theorem C07_flushHop_front (hop x : Nat) (rest : Q) (p : Nat) :
+    flushHop { q := (hop, x) :: rest, pending := p } hop = some (flushFront { q := (hop, x) :: rest, pending := p }) := by
+  simp [flushHop, removeHop, flushFront]
+
+theorem removeHop_none (hop : Nat) (q : Q) (h : ∀ e ∈ q, e.1 ≠ hop) : removeHop hop q = none := by
+  induction q with
+  | nil => rfl
+  | cons a rest ih =>
+    obtain ⟨ha, xa⟩ := a
+    have h1 : ha ≠ hop := h (ha, xa) List.mem_cons_self
+    have h2 := ih (fun e he => h e (List.mem_cons_of_mem _ he))
+    simp [removeHop, h1, h2]
+
+/-- a destination that has nothing buffered cannot be sent to at a flush point -/
+theorem C07_flushHop_needs_buffer (s : St) (hop : Nat) (h : ∀ e ∈ s.q, e.1 ≠ hop) : flushHop s hop = none := by
+  simp [flushHop, removeHop_none hop s.q h]
+
+example : (flushHop { q := [(1, 60), (2, 30)], pending := 40 } 2).map (fun p => (p.1.q, p.1.pending, p.2)) = some ([(1, 60)], 70, [(2, 30)]) := by decide
+example : (flushHop { q := [(1, 60), (2, 30)], pending := 40 } 3).isNone = true := by decide
+
 end YgmVerif.Bytes
